@@ -31,7 +31,7 @@ def jobs(tier):
             for op in ('appendownptr', 'setownptr'):
                 # s += (s.Cstr()+k) with growth goes through String(const char *, len) -> SetCstr's scanning loop: the length becomes a function of symbolic content
                 # and the job exhausts 12 GB (measured); only the no-growth cases are part of the claim
-                if op == 'appendownptr' and L + (L - K) > CAP: continue
+                if op == 'appendownptr' and L + (L - K) >= CAP: continue
                 add(op, L, 0, K)
         for M in (0, 3, CAP + 2):
             for K in sorted(set([0, 2, M, M + 1, 0xffffffff])): add('setcstrmax', L, M, K)
